@@ -177,6 +177,7 @@ type adapter struct {
 	builder *node.Node
 	dir     string
 	seq     int
+	gen     int
 	u       *txguard.Universe
 	ukey    string
 	cache   map[string]*built
@@ -201,6 +202,13 @@ func (a *adapter) Reset(init map[string]tla.Value) (engine.Fields, error) {
 	}
 	if a.nut != nil {
 		a.nut.Destroy()
+	}
+	if len(a.cache) > 1200 {
+		// the builder never stabilises anything, so its store keeps every block and account state in memory: start over
+		a.builder.Destroy()
+		a.gen++
+		a.builder = a.w.NewNode(filepath.Join(a.dir, fmt.Sprintf("builder%d", a.gen)))
+		a.cache = map[string]*built{}
 	}
 	e := init["exp"]
 	if a.u == nil || a.ukey != e.String() {
